@@ -163,7 +163,9 @@ class Oracle:
                     why = "register %d: %s" % (r, w)
                     break
         # leaked iter_mut guards leave the order unspecified until the next rebuild
-        if name == "itermut" and "forget" in toks[3:4]:
+        if out == "invalid" or out.startswith("fault"):
+            pass
+        elif name == "itermut" and "forget" in toks[3:4]:
             self.unordered.add(int(toks[1]))
         elif name in ("retain", "retainmut", "convert", "clear", "drain", "new", "fromvec", "fromiter",
                       "deser", "withcap") or (name == "itermut" and "forget" not in toks[3:4]):
